@@ -685,7 +685,7 @@ def known(case, detail):
 # ------------------------------------------------------------------------------------------------
 # generators
 # ------------------------------------------------------------------------------------------------
-def gen_perm_basis(rng, n, lmax=3, kmax=3, mmax=3, exp_lo=0.05, exp_hi=None, nf_cap=40, lset=None):
+def gen_perm_basis(rng, n, lmax=3, kmax=3, mmax=3, exp_lo=0.05, exp_hi=None, nf_cap=40, lset=None, tmode=None):
     """n shells on 1-3 centres with at least two different l, two different segment counts and (n >= 2) both
     coordinate types whenever the draw allows; total number of functions <= nf_cap"""
     for _ in range(200):
@@ -697,9 +697,17 @@ def gen_perm_basis(rng, n, lmax=3, kmax=3, mmax=3, exp_lo=0.05, exp_hi=None, nf_
         ms = [rng.randint(1, mmax) for _ in range(n)]
         if mmax > 1 and len(set(ms)) < 2:
             ms[rng.randrange(n)] = 1 + ms[0] % mmax
-        types = [rng.random() < 0.5 for _ in range(n)]
-        if len(set(types)) < 2:
-            types[rng.randrange(n)] = not types[0]
+        # coordinate types: mostly mixed (construct_array_mix), but the all-Cartesian and all-spherical dispatch
+        # targets (construct_array_cartesian / construct_array_spherical) are separate code and must be reached too
+        mode = rng.random()
+        if tmode == "cart" or (tmode is None and mode < 0.2):
+            types = [False] * n
+        elif tmode == "sph" or (tmode is None and mode < 0.4):
+            types = [True] * n
+        else:
+            types = [rng.random() < 0.5 for _ in range(n)]
+            if len(set(types)) < 2:
+                types[rng.randrange(n)] = not types[0]
         shells = []
         for i in range(n):
             s = gen_shell(rng, l=ls[i], kmax=kmax, mmax=1, sph=types[i], exp_lo=exp_lo, exp_hi=exp_hi,
@@ -798,7 +806,8 @@ def gen_perm_cases(tier, rng):
                 lmax = 3 if n <= 3 else (2 if heavy else 3)
                 cap = 26 if heavy else 34
                 shells = gen_perm_basis(rng, n, lmax=lmax, nf_cap=cap,
-                                        exp_hi=None if rep_i % 2 == 0 else 40.0)
+                                        exp_hi=None if rep_i % 2 == 0 else 40.0,
+                                        tmode=["cart", "mix", "sph", "mix"][(n + rep_i) % 4])
                 perms = perms_of(rng, n, 12 if quick else 16)
                 prm = fn_params(rng, fn, shells)
                 per = 24 if fn in ONE_FNS + ["overlap", "kinetic", "momentum"] else (8 if quick else 12)
